@@ -22,7 +22,7 @@ from fractions import Fraction
 
 DRIVER = "C18"
 RULE = ("size literals: seeded generator over plain/huge integers (up to 40 digits, >= 2^53), decimals with > 15 significant "
-        "digits, exponents |e| <= 30, single/misplaced underscores, units {'',B,kB..PB} and wrong-case/unknown units, spaces and "
+        "digits, exponents |e| <= 30 (three digits after mutation; larger ones excluded, see ASSUMPTIONS), single/misplaced underscores, units {'',B,kB..PB} and wrong-case/unknown units, spaces and "
         "ASCII whitespace/control characters at any position, signs, inf/nan words, malformed strings, random one-character "
         "mutations of valid literals; ints and floats (incl. inf/nan/-0.0/subnormal/2^k); spec pairs: every single-field "
         "difference over pools of 3-6 values per field plus equal and multi-field pairs; API sweep: every entry of the call "
@@ -248,7 +248,7 @@ def corr_literals_a(ctx):
     from cubed.utils import convert_to_bytes
 
     lits = literal_sample(ctx, ctx.budget(3000, 30000))
-    ctx.extra["_lits"] = lits
+    ctx._lits = lits
     reqs = ["bytes|" + cps(s) for s in lits]
     impl = [classify(convert_to_bytes, s) for s in lits]
     _reqs = reqs
@@ -264,7 +264,7 @@ def corr_literals_a(ctx):
 
 def corr_literals_b(ctx):
     # the denotation itself against the independent Python reading
-    lits = ctx.extra.pop("_lits")
+    lits = ctx._lits
     sub = lits[: ctx.budget(800, 6000)]
     _reqs = ["denote|" + cps(s) for s in sub]
 
@@ -900,8 +900,12 @@ def oracle_budget(ctx, pools):
                                 (3 * 10 ** 8, 3 * 10 ** 8), (5e8, 5 * 10 ** 8), ("40MB", 4 * 10 ** 7), ("12.5MB", 125 * 10 ** 5)])
         rlit, rwant = rng.choice([(0, 0), ("1MB", 10 ** 6), ("500kB", 5 * 10 ** 5), (None, 0), ("2e6", 2 * 10 ** 6)])
         side = rng.choice([500, 1000, 1500])
-        spec = cubed.Spec(work_dir=os.path.join(pools.tmp, "w1"), allowed_mem=lit, reserved_mem=rlit)
         case = {"allowed_mem": lit, "reserved_mem": rlit, "expr": "add(ones((%d,%d)), ones) ; matmul" % (side, side)}
+        try:
+            spec = cubed.Spec(work_dir=os.path.join(pools.tmp, "w1"), allowed_mem=lit, reserved_mem=rlit)
+        except ValueError:
+            ctx.count(dict(case, spec="rejected"), nontrivial=True, kind="budget:spec-rejected")   # "or rejected" is allowed
+            continue
         if spec.allowed_mem != want or spec.reserved_mem != rwant:
             ctx.fail("Spec(allowed_mem=%r, reserved_mem=%r) stores %r / %r, the literals denote %r / %r"
                      % (lit, rlit, spec.allowed_mem, spec.reserved_mem, want, rwant), case)
@@ -991,12 +995,21 @@ def corr(ctx):
             i += len(reqs)
 
 
+def _guard(ctx, what, fn, *a, **kw):
+    """An oracle part must not take the failures found so far down with it."""
+    try:
+        fn(*a, **kw)
+    except Exception as e:   # noqa: BLE001
+        import traceback
+        ctx.fail("oracle part %s crashed: %r" % (what, e), {"part": what, "traceback": traceback.format_exc()[-1500:]})
+
+
 def oracle(ctx):
-    oracle_literals(ctx)
+    _guard(ctx, "literals", oracle_literals, ctx)
     with _Tmp() as tmp:
         pools = Pools(tmp)
-        oracle_sweep(ctx, pools)
-        oracle_budget(ctx, pools)
+        _guard(ctx, "sweep", oracle_sweep, ctx, pools)
+        _guard(ctx, "budget", oracle_budget, ctx, pools)
 
 
 def search(ctx):
@@ -1005,11 +1018,11 @@ def search(ctx):
     tier = ctx.tier
     ctx.tier = "thorough"
     try:
-        oracle_literals(ctx)
+        _guard(ctx, "literals", oracle_literals, ctx)
         with _Tmp() as tmp:
             pools = Pools(tmp)
-            oracle_sweep(ctx, pools, full=True)
-            oracle_budget(ctx, pools)
+            _guard(ctx, "sweep", oracle_sweep, ctx, pools, full=True)
+            _guard(ctx, "budget", oracle_budget, ctx, pools)
             # disagreeing spec pairs lifted to an end-to-end case: add(a, b) must reject what the model calls unequal
             import cubed
             import cubed.array_api as xp
